@@ -44,6 +44,32 @@ def step (_ : Unit) (ws : List String) : Unit × String :=
   | ["fsize", hx] =>
       let b := if hx == "-" then ByteArray.empty else ByteArray.ofHex hx
       ((), match Frame.findFrameCompressedSize b 0 b.size with | .ok n => s!"ok {n}" | .error e => s!"err {e.cls}")
+  | ["conform", fh, sh, dh, mb, fmt, sub] =>
+      -- decode the frame with the independent decoder, compare with the source, evaluate Conform on the trace
+      let f := if fh == "-" then ByteArray.empty else ByteArray.ofHex fh
+      let x := if sh == "-" then ByteArray.empty else ByteArray.ofHex sh
+      let d := if dh == "-" then ByteArray.empty else ByteArray.ofHex dh
+      -- the dictionary goes through the decoder-side loader model: raw content, or a formatted dictionary with its entropy tables
+      match Dict.loadD d with
+      | .error e => ((), s!"dict-err {e.cls}")
+      | .ok D =>
+      match Frame.decompressAll f D x.size { magicless := fmt == "1" } with
+      | .error e => ((), s!"decode-err {e.cls}")
+      | .ok (out, trs) =>
+        if out != x then ((), s!"mismatch size={out.size}") else
+        let viol := trs.toList.flatMap (fun t => Conform.checkFrame t D.content.size none mb.toNat! (sub == "1"))
+        if !viol.isEmpty then ((), "viol " ++ "; ".intercalate viol) else
+        let blocks := trs.foldl (fun n t => n + t.blocks.size) 0
+        let seqs := trs.foldl (fun n t => t.blocks.foldl (fun m b => m + (b.tr.map (·.nbSeq)).getD 0) n) 0
+        let cov := trs.foldl (fun c t => t.blocks.foldl (fun c b =>
+            match b.tr with
+            | none => c ||| (1 <<< b.hdr.ty)
+            | some tr =>
+              let (a, o, m) := tr.modes
+              c ||| (1 <<< 2) ||| (1 <<< (4 + (match tr.litMode with | .raw => 0 | .rle => 1 | .compressed => 2 | .treeless => 3)))
+                ||| (if tr.litStreams == 4 then 1 <<< 8 else 0) ||| (if tr.nbSeq == 0 then 1 <<< 9 else (1 <<< (10 + a)) ||| (1 <<< (14 + o)) ||| (1 <<< (18 + m)))
+                ||| (if tr.nbSeq ≥ 0x7F00 then 1 <<< 22 else 0)) c) 0
+        ((), s!"ok frames={trs.size} blocks={blocks} seqs={seqs} cov={cov}")
   | ["conform", fh, sh, dh, mb, fmt] =>
       -- decode the frame with the independent decoder, compare with the source, evaluate Conform on the trace
       let f := if fh == "-" then ByteArray.empty else ByteArray.ofHex fh
@@ -57,7 +83,7 @@ def step (_ : Unit) (ws : List String) : Unit × String :=
       | .error e => ((), s!"decode-err {e.cls}")
       | .ok (out, trs) =>
         if out != x then ((), s!"mismatch size={out.size}") else
-        let viol := trs.toList.flatMap (fun t => Conform.checkFrame t D.content.size none mb.toNat!)
+        let viol := trs.toList.flatMap (fun t => Conform.checkFrame t D.content.size none mb.toNat! false)
         if !viol.isEmpty then ((), "viol " ++ "; ".intercalate viol) else
         let blocks := trs.foldl (fun n t => n + t.blocks.size) 0
         let seqs := trs.foldl (fun n t => t.blocks.foldl (fun m b => m + (b.tr.map (·.nbSeq)).getD 0) n) 0
